@@ -32,7 +32,7 @@ ASSUMPTIONS = [
 ]
 REQUIRED_COUNTERS = {
     "purity": 200, "linearity": 100, "zero_weight": 50, "coord_perm": 100, "ens_perm": 100, "nonneg": 80, "zero_equal": 60,
-    "wrong_len": 100, "user_loss": 40, "options_changed_after_evaluation": 100, "purity_nonfinite_input": 100, "ensemble_above_16": 10,
+    "wrong_len": 100, "user_loss": 40, "options_changed_after_evaluation": 100, "msm_inverse_variance_near_deterministic": 5, "purity_nonfinite_input": 100, "ensemble_above_16": 10,
 }
 SHARDS = {"quick": 16, "thorough": 16}
 KINDS = ["minkowski", "msm", "fourier", "gsl", "likelihood", "user"]
@@ -268,6 +268,20 @@ def run_case(desc, ctx):
             cnt("nonneg")
             if v1 < 0:
                 bad(f"negative value {v1!r}")
+        # ---- inverse-variance MSM on an ensemble that almost reproduces high-level data: the weights are variances, i.e. positive
+        if kind == "msm" and d.get("cov") == "inverse_variance" and not int_data:
+            try:
+                level = float(10.0 ** rng.uniform(3, 6))
+                walk = np.cumsum(rng.normal(size=(N, D)), axis=0)
+                real_h = level + walk
+                sim_h = real_h[None, :, :] + rng.normal(size=(max(E, 3), N, D)) * float(10.0 ** rng.uniform(-4, -2))
+                vh = ev(build(dict(d, filters=None, weights=None)), sim_h, real_h)
+                cnt("msm_inverse_variance_near_deterministic")
+                if vh != vh or vh < 0 or math.isinf(vh):
+                    bad(f"inverse-variance MSM on an ensemble that differs from high-level data (level {level:.3g}) by small noise returned {vh!r}: "
+                        "a weighted sum of squares with positive weights is finite and non-negative", {"level": level})
+            except Exception as e:  # noqa: BLE001
+                bad(f"evaluation on a nearly deterministic ensemble raised {type(e).__name__}: {e}")
         # ---- zero when every member equals the real data (no filters: they act on the simulated side only)
         zero_kind = kind in ("minkowski", "fourier") or (kind == "msm" and d["cov"] == "identity")
         if zero_kind and kind == "msm" and d["standardise"]:
